@@ -18,6 +18,8 @@ EXTENDS Integers, Sequences, FiniteSets
 SeqSet(s) == {s[i] : i \in 1..Len(s)}
 Has(rec, f) == f \in DOMAIN rec
 
+(* a start that failed (the executor could not be spawned) is an attempt, not a run: nothing of it is running afterwards *)
+Failed(e) == Has(e, "failed") /\ e.failed
 (* ---------- requests: which item was accepted ---------- *)
 ItemOk(e, k) == k <= Len(e.replies) /\ e.replies[k][2] = 2
 AddIdx(ev, u) == {<<i, k>> \in (1..Len(ev)) \X (1..8) :
@@ -41,6 +43,11 @@ EpochOk(ev, u, i, k) ==
   IN
   (* never more runs than occurrences that have come due; never early; none for what was past at load *)
   /\ \A j \in S : Cardinality({x \in S : x <= j}) <= DueBefore(F, ev[j].now)
+  (* what is started is this task, as it was handed in, on behalf of the user who handed it in *)
+  /\ \A j \in S : (Has(ev[j], "vuid") /\ ~Failed(ev[j])) =>
+        /\ ev[j].vuid = u
+        /\ (Has(ev[i].items[k], "peer") => ev[j].vsetuid = ev[i].items[k].peer)
+        /\ ev[j].vsummary = "echo " \o u
   (* a task with no future occurrence is never run *)
   /\ (F = <<>> => S = {})
   (* never zero: whenever the daemon has caught up, every occurrence that came due has been followed by a run *)
@@ -59,8 +66,6 @@ LimitAt(ev, u, j) ==
 (* runs of the task as it is queued now: once a task has left the queue (cancelled, or taken off after its last occurrence) *)
 (* what is added later under the same UID is a new task; a replaced task stays the same task                                *)
 Absent(ev, u, x) == ev[x].e = "State" /\ ~\E t \in SeqSet(ev[x].tasks) : t.uid = u
-(* a start that failed (the executor could not be spawned) is an attempt, not a run: nothing of it is running afterwards *)
-Failed(e) == Has(e, "failed") /\ e.failed
 RealRuns(ev, u, j) == {s \in 1..(j - 1) : ev[s].e = "Spawn" /\ ev[s].uid = u /\ ~ev[s].norun /\ ~Failed(ev[s]) /\ ~\E x \in (s + 1)..(j - 1) : Absent(ev, u, x)}
 StillRunning(ev, s, j) == ~\E x \in (s + 1)..(j - 1) : ev[x].e = "Exit" /\ ev[x].pid = ev[s].pid
 NotYetReaped(ev, s, j) == ~\E x \in (s + 1)..(j - 1) : ev[x].e = "Deliver" /\ ev[x].k = "chld" /\ ev[x].pid = ev[s].pid
